@@ -121,6 +121,7 @@ def run(tier, seed, out, drv, facts):
     arraylike_node_cases(out)
     composite_leaf_cases(out, drv, facts, rng)
     overwrite_then_reject_cases(out, drv, facts, rng)
+    pep604_cases(out)
     bare_pytree_cases(out)
     after_fault_cases(out)
 
@@ -174,6 +175,40 @@ def overwrite_then_reject_cases(out, drv, facts, rng):
                     if mid and progcheck.last_bindings(gb) != mid[0]["m"]:
                         out.violation("reject-binds:overwrite", f"a rejected tree changed the bindings from {progcheck.last_bindings(gb)} to {mid[0]['m']} "
                                       f"(a broadcastable multi-axis binding updated by an early leaf was not put back)", {"program": prog})
+
+
+def pep604_cases(out):
+    """unions written `X | Y` (PEP 604) as leaf types, with member combinations no other case has built before (the cache of
+    `PyTree[...]` is keyed by the leaf type, and `X | Y == Union[X, Y]`): every leaf must match one of the members"""
+    import typing
+
+    from jaxtyping import PyTree
+
+    class K1:
+        pass
+
+    class K2:
+        pass
+
+    cases = [
+        ("bytes | bool", bytes | bool, [[b"x", True], (b"", {"k": False})], [[b"x", 1.5], [object()], ["s"]]),
+        ("complex | K1 | None", complex | K1 | None, [[1j, K1()], {"a": None, "b": (K1(),)}], [[K2()], [1j, "s"], ("x",)]),
+        ("K2 | tuple[int, int]", K2 | tuple[int, int], [[K2(), (1, 2)], ((3, 4),)], [[K1()], [(1, "a")], [b"b"]]),
+        ("typing.Union[bytes, K2] (reference)", typing.Union[bytes, K2], [[b"x", K2()]], [[K1()], [1.5]]),
+    ]
+    for name, lt, goods, bads in cases:
+        try:
+            ann = PyTree[lt]
+        except BaseException as e:  # noqa: BLE001
+            out.violation("pep604:build", f"PyTree[{name}] cannot be built: {type(e).__name__}: {e}", {"pep604": name})
+            continue
+        for want, trees in (("T", goods), ("F", bads)):
+            for tree in trees:
+                got = impl.check_once(tree, ann)
+                out.case(("pep604", name, repr(tree)[:60]), True, sample={"leaf_type": name, "tree": repr(tree)[:80], "verdict": got})
+                if got != want:
+                    out.violation(f"pep604:{want}->{got}", f"isinstance({tree!r}, PyTree[{name}]) answers {got}; every leaf {'matches' if want == 'T' else 'must match'} "
+                                  f"one of the members, so the answer must be {want}", {"pep604": name, "tree": repr(tree)})
 
 
 def bare_pytree_cases(out):
@@ -328,6 +363,9 @@ def replay(rep, out, drv, facts):
         return
     if "arraylike_node" in rep:
         arraylike_node_cases(out)
+        return
+    if "pep604" in rep:
+        pep604_cases(out)
         return
     if "bare_pytree" in rep:
         bare_pytree_cases(out)
